@@ -599,17 +599,25 @@ RecipB(ty, x) == ElemB(ty, "recip", x)
 SinCosB(ty, x) == <<ElemB(ty, "sin", x), ElemB(ty, "cos", x)>>
 TanB(ty, x)  == LET sc == SinCosB(ty, x) IN DivB(ty, sc[1], sc[2])
 TanhB(ty, x) == DivB(ty, ElemB(ty, "sinh", x), ElemB(ty, "cosh", x))
-\* fn atan2(&self, other):  res = (self / other).atan(); res.re = self.re.atan2(other.re)
+\* fn atan2(&self, other):
+\*   res = if |self.re()| > |other.re()| { -(other / self).atan() } else { (self / other).atan() };
+\*   res.re = self.re.atan2(other.re)
+\* (before the repair "fix: atan2 returned NaN derivatives on the y axis" only the second
+\*  branch existed; Special.tla evaluates it over the extended rationals at x.re = 0)
 Atan2B(ty, y, x) ==
-    LET res == ElemB(ty, "atan", DivB(ty, y, x))
+    LET res == IF FLt(FAbs(ReB(x)), FAbs(ReB(y)))
+               THEN NegB(ty, ElemB(ty, "atan", DivB(ty, x, y)))
+               ELSE ElemB(ty, "atan", DivB(ty, y, x))
     IN  [res EXCEPT !.re = SAtan2(y.re, x.re)]
 \* lib.rs: powd = (self.ln() * exp).exp()
 PowdB(ty, x, e) == ElemB(ty, "exp", MulB(ty, ElemB(ty, "ln", x), e))
 \* Inv
 InvB(ty, x) == RecipB(ty, x)
 
-\* sph_j0/1/2 : branch on  self.re() < F::epsilon()
-SphSmall(x) == FLt(ReB(x), FEps)
+\* sph_j0/1/2 : branch on  self.re().abs() < F::epsilon()
+\* (before the repair "fix: sph_j0/sph_j1/sph_j2 ..." the code tested re() < epsilon; TLC
+\*  reported every negative sample point of Towers.tla as a counterexample)
+SphSmall(x) == FLt(FAbs(ReB(x)), FEps)
 SphJ0B(ty, x) ==
     IF SphSmall(x) THEN SubB(ty, OneB(ty), DivFB(ty, MulB(ty, x, x), QInt(6)))
     ELSE DivB(ty, ElemB(ty, "sin", x), x)
